@@ -361,6 +361,34 @@ def toCartesian {L R : Type} (P : Params α) (b : Block α L R) : Option (Block 
         some { b with position := .cartesian x y z lock, width := w, height := h, depth := dp,
                       cartesian := true }
 
+/-! ### the conversion stage on a rendering item (`ear.core.metadata_processing`) -/
+
+/-- `MetadataSourceModifyBlockFormat.get_next_block()`: the wrapper's only state is its inner source, here the list
+of blocks the inner source has not handed out yet.  `none` = the inner source returned `None`; otherwise the
+function `f` applied to the inner block's `block_format` (every other attribute of the `TypeMetadata` is kept by
+`evolve`) and the remaining inner state.  Nothing else is carried from one call to the next. -/
+def wrapNext {β γ : Type} (f : β → γ) : List β → Option (γ × List β)
+  | [] => none
+  | b :: rest => some (f b, rest)
+
+/-- Calling `get_next_block()` until it returns `None` (at most `calls` times). -/
+def wrapDrain {β γ : Type} (f : β → γ) : Nat → List β → List γ
+  | 0, _ => []
+  | n + 1, src =>
+    match wrapNext f src with
+    | none => []
+    | some (b, rest) => b :: wrapDrain f n rest
+
+/-- `convert_objects_to_polar` seen on one Objects rendering item: the blocks its wrapped metadata source yields
+(`none` in a position = `to_polar` raised `AssertionError` when that block was pulled). -/
+def convertObjectsToPolar {L R : Type} (P : Params α) (blocks : List (Block α L R)) : List (Option (Block α L R)) :=
+  wrapDrain (toPolar P) (blocks.length + 1) blocks
+
+/-- `convert_objects_to_cartesian` seen on one Objects rendering item. -/
+def convertObjectsToCartesian {L R : Type} (P : Params α) (blocks : List (Block α L R)) :
+    List (Option (Block α L R)) :=
+  wrapDrain (toCartesian P) (blocks.length + 1) blocks
+
 end
 
 /-- Build `Params` from a rational table (the regenerated `Gen/C19_Tables`). -/
